@@ -64,7 +64,7 @@ def make_case(rng, ref, k, sizes=None):
     tracers = hodref.gen_tracers(rng, sub, fancy=bool(k % 3))
     enable_ranks = bool(k % 2)
     rsd = bool((k // 2) % 2)
-    origin = None if (k // 4) % 3 else np.array([-990.0, -830.0, -1100.0])  # distinct components
+    origin = None if (k // 4) % 3 else (np.array([-990.0, -830.0, -1100.0]) if (k // 12) % 2 == 0 else np.array([0.0, 0.0, 0.0]))  # distinct components; an observer at the coordinate origin is a valid light-cone origin too
     params = dict(z=0.5, velz2kms=float(rng.uniform(50, 200)), Lbox=lbox, origin=origin, Mpart=2.1e9, chunk=-1)
     # plant decisive randoms
     etr = hodref.evolved(tracers, params['z'])
